@@ -134,6 +134,24 @@ def mkEnv (table : List (String × Bool)) (compiles : Bool) (js : JsonOut) : Env
     compiles := fun _ => compiles
     json := fun _ => js }
 
+/-- `1x3.0x2` → #[true, true, true, false, false] -/
+def unrleBits (t : String) : Array Bool :=
+  if t = "-" then #[] else
+  (t.splitOn ".").foldl (fun acc seg =>
+    match seg.splitOn "x" with
+    | [b, k] => acc ++ Array.replicate (min (natD k) 40000) (boolOf b)
+    | _ => acc) #[]
+
+/-- run-length form of a list of strings: `<count>x <string>` per run -/
+def rleStrings (xs : List String) : List String :=
+  let rec go (xs : List String) (cur : Option (String × Nat)) (acc : List String) : List String :=
+    match xs, cur with
+    | [], none => acc.reverse
+    | [], some (s, k) => (s!"{k}x {s}" :: acc).reverse
+    | x :: r, none => go r (some (x, 1)) acc
+    | x :: r, some (s, k) => if x = s then go r (some (s, k + 1)) acc else go r (some (x, 1)) (s!"{k}x {s}" :: acc)
+  go xs none []
+
 def showRx (ps : List Str) : String := showList (sorted (ps.map rxKey))
 
 /-- the shipped regex signatures whose parse tree the model understands, by key -/
@@ -270,6 +288,41 @@ def step (st : DSt) (toks : List String) : DSt × String :=
     let tag := (if order = List.range n then "p:seq" else "p:reorder") ++ (if anyRate then " p:rate" else "")
     ({ st with mem := m' },
      s!"par o={".".intercalate (order.map toString)} | {" | ".intercalate ((List.range n).map part)} | audit={m'.audit.length} {memStats m'} ## {tag}")
+  | ["bulk", n, pre, suf] =>
+    -- a LONG run of filter calls on the one membrane: inputs `pre ++ decimal(i) ++ suf`, i < n; after `@` one
+    -- run-length bit vector per regex key (`k=1x4999.0x1`): what the real `re` returned in call i
+    let n := natD n
+    if st.mem.onThreat.isSome || n > 30000 then (st, "bad-op") else
+    let rest := (toks.dropWhile (· ≠ "@")).drop 1
+    let vecs : List (String × Array Bool) := rest.filterMap fun t =>
+      match t.splitOn "=" with
+      | [k, v] => some (k, unrleBits v)
+      | _ => none
+    let envOf := fun i => mkEnv (vecs.map fun (k, bits) => (k, bits.getD i false)) true js
+    let inputs := bulkInputs (decodeCps pre) (decodeCps suf) n
+    let (m', outs) := st.mem.filterLoop envOf st.now inputs []
+    let calls := showRx (rxCalls st.mem.active)
+    let head := fun (o : FilterOut) =>
+      let r := o.decision
+      s!"{showBool r.allowed} {r.level} m={showSigs r.matched} rx={if r.reason = .scan then calls else "[]"}"
+    let segs := rleStrings (outs.map fun o => head o.2)
+    let inlog := m'.audit.drop (m'.audit.length - n) == outs.map (·.2.decision)
+    let probe := (inputs.take 40 ++ inputs.drop (n - 3)).map fun (i, c) =>
+      rxModelCheck (vecs.map fun (k, bits) => (k, bits.getD i false)) c
+    let has := fun (p : FilterRes → Bool) => outs.any fun o => p o.2.decision
+    let tags := " b:bulk" ++ (if has (·.reason = .rate) then " f:rate" else "")
+      ++ (if has (·.reason = .replay) then " f:replay" else "")
+      ++ (if has (fun r => r.reason = .scan && r.allowed) then " f:allow" else "")
+      ++ (if has (fun r => r.reason = .scan && !r.allowed) then " f:block" else "")
+    ({ st with mem := m' },
+     s!"bulk | {" | ".intercalate segs} | in={showBool inlog} audit={m'.audit.length} {memStats m'}{String.join probe.eraseDups} ##{tags}")
+  | ["bulklearn", n, pre, lvl] =>
+    -- `learn_threat(pre + decimal(i), level)` for i < n: a LONG run of learned substring signatures
+    let n := natD n
+    if n > 30000 then (st, "bad-op") else
+    let env := mkEnv [] true js
+    let m' := (bulkInputs (decodeCps pre) [] n).foldl (fun m p => (m.learn env ⟨p.2, natD lvl, false⟩).1) st.mem
+    ({ st with mem := m' }, s!"ok ln={m'.learned.length}")
   | ["learn", s] =>
     let sg := parseSig s
     let compiles := match toks.dropWhile (· ≠ "@") with | _ :: "bad" :: _ => false | _ => true
